@@ -188,7 +188,7 @@ Definition fresh_ch (ch : chst) : Prop :=
 
 (* the state of the channel held by goroutine t *)
 Definition holder_ch (t : rthread) (ch : chst) : Prop :=
-  c_owner ch = fst (r_iq t) /\ c_closed ch = false /\
+  c_owner ch = rid (r_iq t) /\ c_closed ch = false /\
   match r_pc t with
   | RClose _ => (c_buf ch = Some (r_iq t) /\ c_got ch = []) \/ (c_buf ch = None /\ c_got ch = [r_iq t])
   | _ => c_buf ch = None /\ c_got ch = []
@@ -196,8 +196,8 @@ Definition holder_ch (t : rthread) (ch : chst) : Prop :=
 
 (* per-channel: only the owner's id, at most one value ever *)
 Definition chan_wf (ch : chst) : Prop :=
-  (forall v, c_buf ch = Some v -> fst v = c_owner ch) /\
-  (forall v, In v (c_got ch) -> fst v = c_owner ch) /\
+  (forall v, c_buf ch = Some v -> rid v = c_owner ch) /\
+  (forall v, In v (c_got ch) -> rid v = c_owner ch) /\
   length (c_got ch) + (match c_buf ch with Some _ => 1 | None => 0 end) <= 1.
 
 Definition table_ok (s : cst) : Prop :=
@@ -241,9 +241,9 @@ Qed.
 (* ------------------------------------------------------------------ *)
 (* environment actions preserve the invariant                          *)
 
-Lemma inv_register s i : inv s -> inv (c_step s (ARegister i)).
+Lemma inv_register_fresh s i : inv s -> inv (register s i).
 Proof.
-  intros (P & T & N & U & O & H & C). cbn [c_step].
+  intros (P & T & N & U & O & H & C). unfold register.
   unfold inv, table_ok, table_unheld, one_holder, holder_ok, chan_ok. cbn [table chans routers panicked].
   split; [exact P|]. split.
   { intros j c [E|Hin].
@@ -265,6 +265,25 @@ Proof.
     exists ch. split; [apply nth_error_snoc_old; exact E1|exact E2]. }
   intros c ch Hc. apply nth_error_snoc_inv in Hc as [[_ Hc]|[_ ->]]; [exact (C _ _ Hc)|].
   unfold chan_wf, new_chan; cbn. split; [intros; discriminate|]. split; [intros v []|lia].
+Qed.
+
+Lemma inv_refuse s i : inv s -> inv (refuse s i).
+Proof.
+  intros (P & T & N & U & O & H & C). unfold refuse.
+  unfold inv, table_ok, table_unheld, one_holder, holder_ok, chan_ok. cbn [table chans routers panicked].
+  split; [exact P|]. split.
+  { intros j c Hin. destruct (T _ _ Hin) as (ch & E1 & E2 & E3).
+    exists ch. split; [apply nth_error_snoc_old; exact E1|]. split; assumption. }
+  split; [exact N|]. split; [exact U|]. split; [exact O|]. split.
+  { intros k t c Hk Hh. destruct (H _ _ _ Hk Hh) as (ch & E1 & E2).
+    exists ch. split; [apply nth_error_snoc_old; exact E1|exact E2]. }
+  intros c ch Hc. apply nth_error_snoc_inv in Hc as [[_ Hc]|[_ ->]]; [exact (C _ _ Hc)|].
+  unfold chan_wf, new_chan; cbn. split; [intros; discriminate|]. split; [intros v []|lia].
+Qed.
+
+Lemma inv_register s i : inv s -> inv (c_step s (ARegister i)).
+Proof.
+  intros I. cbn [c_step]. destruct (live s i); [apply inv_refuse|apply inv_register_fresh]; exact I.
 Qed.
 
 Lemma inv_set_table s t' :
@@ -398,17 +417,24 @@ Proof. unfold recv_like, cancel_ch; cbn. auto. Qed.
 Lemma router_step_none s k : nth_error (routers s) k = None -> router_step s k = s.
 Proof. intros H. unfold router_step. rewrite H. reflexivity. Qed.
 
-Lemma router_step_start_miss s k t :
-  nth_error (routers s) k = Some t -> r_pc t = RStart -> lookup (fst (r_iq t)) (table s) = None ->
+Lemma router_step_start_req s k t :
+  nth_error (routers s) k = Some t -> r_pc t = RStart -> rreq (r_iq t) = true ->
   router_step s k = set_pc s k ROrd.
 Proof. intros H1 H2 H3. unfold router_step. rewrite H1, H2, H3. reflexivity. Qed.
 
+Lemma router_step_start_miss s k t :
+  nth_error (routers s) k = Some t -> r_pc t = RStart -> rreq (r_iq t) = false ->
+  lookup (rid (r_iq t)) (table s) = None ->
+  router_step s k = set_pc s k ROrd.
+Proof. intros H1 H2 H0 H3. unfold router_step. rewrite H1, H2, H0, H3. reflexivity. Qed.
+
 Lemma router_step_start_hit s k t c ch :
-  nth_error (routers s) k = Some t -> r_pc t = RStart -> lookup (fst (r_iq t)) (table s) = Some c ->
+  nth_error (routers s) k = Some t -> r_pc t = RStart -> rreq (r_iq t) = false ->
+  lookup (rid (r_iq t)) (table s) = Some c ->
   nth_error (chans s) c = Some ch ->
-  router_step s k = set_pc (set_table s (remove_id (fst (r_iq t)) (table s))) k
+  router_step s k = set_pc (set_table s (remove_id (rid (r_iq t)) (table s))) k
                       (if c_done ch then RCloseOrd c else RSend c).
-Proof. intros H1 H2 H3 H4. unfold router_step. rewrite H1, H2, H3, H4. destruct (c_done ch); reflexivity. Qed.
+Proof. intros H1 H2 H0 H3 H4. unfold router_step. rewrite H1, H2, H0, H3, H4. destruct (c_done ch); reflexivity. Qed.
 
 Lemma router_step_send s k t c ch :
   nth_error (routers s) k = Some t -> r_pc t = RSend c -> nth_error (chans s) c = Some ch ->
@@ -430,7 +456,7 @@ Proof. intros H1 H2 H3 H4. unfold router_step. rewrite H1, H2, H3, H4. reflexivi
 
 Definition add_ordinary (s : cst) (r : resp) : cst :=
   {| table := table s; chans := chans s; routers := routers s;
-     ordinary := ordinary s ++ [r]; arrived := arrived s; panicked := panicked s |}.
+     ordinary := ordinary s ++ [r]; arrived := arrived s; refused := refused s; panicked := panicked s |}.
 
 Lemma router_step_ord s k t :
   nth_error (routers s) k = Some t -> r_pc t = ROrd ->
@@ -498,8 +524,8 @@ Qed.
 (* goroutine k takes the pending entry (i, c) out of the table: it now holds c *)
 Lemma inv_take s k t c pc' :
   inv s -> nth_error (routers s) k = Some t -> held_by t = None ->
-  In (fst (r_iq t), c) (table s) -> (pc' = RSend c \/ pc' = RCloseOrd c) ->
-  inv (set_pc (set_table s (remove_id (fst (r_iq t)) (table s))) k pc').
+  In (rid (r_iq t), c) (table s) -> (pc' = RSend c \/ pc' = RCloseOrd c) ->
+  inv (set_pc (set_table s (remove_id (rid (r_iq t)) (table s))) k pc').
 Proof.
   intros (P & T & N & U & O & H & C) Hk Hfree Hin Hpc.
   assert (Hh' : held_by (with_pc pc' t) = Some c) by (destruct Hpc as [-> | ->]; reflexivity).
@@ -542,12 +568,14 @@ Proof.
   pose proof I as (P & T & N & U & O & H & C).
   destruct (r_pc t) as [|c|c|c| |] eqn:Hpc.
   - (* RStart *)
-    destruct (lookup (fst (r_iq t)) (table s)) as [c|] eqn:Hl.
+    destruct (rreq (r_iq t)) eqn:Hq;
+      [rewrite (router_step_start_req s k t Hk Hpc Hq); apply (inv_set_pc_free s k t); auto|].
+    destruct (lookup (rid (r_iq t)) (table s)) as [c|] eqn:Hl.
     + apply lookup_In in Hl as Hin. destruct (T _ _ Hin) as (ch & E1 & _).
-      rewrite (router_step_start_hit s k t c ch Hk Hpc Hl E1).
+      rewrite (router_step_start_hit s k t c ch Hk Hpc Hq Hl E1).
       apply (inv_take s k t c); [exact I|exact Hk|unfold held_by; rewrite Hpc; reflexivity|exact Hin|].
       destruct (c_done ch); auto.
-    + rewrite (router_step_start_miss s k t Hk Hpc Hl). apply (inv_set_pc_free s k t); auto.
+    + rewrite (router_step_start_miss s k t Hk Hpc Hq Hl). apply (inv_set_pc_free s k t); auto.
   - (* RSend c *)
     assert (Hh : held_by t = Some c) by (unfold held_by; rewrite Hpc; reflexivity).
     destruct (H _ _ _ Hk Hh) as (ch & E1 & Eo & Ec & Eb). rewrite Hpc in Eb. destruct Eb as [Eb Eg].
@@ -636,7 +664,7 @@ Qed.
 Lemma inv_right_owner s :
   inv s ->
   forall c ch v, nth_error (chans s) c = Some ch ->
-    (c_buf ch = Some v \/ In v (c_got ch)) -> fst v = c_owner ch.
+    (c_buf ch = Some v \/ In v (c_got ch)) -> rid v = c_owner ch.
 Proof.
   intros (P & T & N & U & O & H & C) c ch v Hc [Hv|Hv]; destruct (C _ _ Hc) as (W1 & W2 & _); auto.
 Qed.
@@ -666,11 +694,14 @@ Proof.
             nth_error (routers (set_pc s0 k pc)) k = Some (with_pc pc t)).
   { intros s0 pc E. rewrite set_pc_routers, E. apply nth_error_upd_same. exact Hk. }
   destruct (r_pc t) as [|c|c|c| |] eqn:Hpc.
-  - destruct (lookup (fst (r_iq t)) (table s)) as [c|] eqn:Hl.
+  - destruct (rreq (r_iq t)) eqn:Hq;
+      [rewrite (router_step_start_req s k t Hk Hpc Hq); eexists; split; [apply G; reflexivity|];
+       split; [reflexivity|cbn; lia]|].
+    destruct (lookup (rid (r_iq t)) (table s)) as [c|] eqn:Hl.
     + apply lookup_In in Hl as Hin. destruct (T _ _ Hin) as (ch & E1 & _).
-      rewrite (router_step_start_hit s k t c ch Hk Hpc Hl E1). eexists. split; [apply G; reflexivity|].
+      rewrite (router_step_start_hit s k t c ch Hk Hpc Hq Hl E1). eexists. split; [apply G; reflexivity|].
       split; [reflexivity|]. destruct (c_done ch); cbn; lia.
-    + rewrite (router_step_start_miss s k t Hk Hpc Hl). eexists. split; [apply G; reflexivity|].
+    + rewrite (router_step_start_miss s k t Hk Hpc Hq Hl). eexists. split; [apply G; reflexivity|].
       split; [reflexivity|cbn; lia].
   - assert (Hh : held_by t = Some c) by (unfold held_by; rewrite Hpc; reflexivity).
     destruct (H _ _ _ Hk Hh) as (ch & E1 & Eo & Ec & Eb). rewrite Hpc in Eb. destruct Eb as [Eb Eg].
@@ -700,7 +731,7 @@ Definition flying (t : rthread) : list resp :=
 Definition in_flight (s : cst) : list resp := flat_map flying (routers s).
 
 Definition resp_dec (a b : resp) : {a = b} + {a <> b}.
-Proof. decide equality; apply N.eq_dec. Defined.
+Proof. decide equality; try apply N.eq_dec; apply Bool.bool_dec. Defined.
 Definition cnt (x : resp) (l : list resp) : nat := count_occ resp_dec l x.
 
 Lemma cnt_app x l1 l2 : cnt x (l1 ++ l2) = cnt x l1 + cnt x l2.
@@ -757,11 +788,14 @@ Proof.
   intros I B. destruct (nth_error (routers s) k) as [t|] eqn:Hk; [|rewrite router_step_none; assumption].
   pose proof I as (P & T & N & U & O & H & C).
   destruct (r_pc t) as [|c|c|c| |] eqn:Hpc.
-  - destruct (lookup (fst (r_iq t)) (table s)) as [c|] eqn:Hl.
+  - destruct (rreq (r_iq t)) eqn:Hq;
+      [rewrite (router_step_start_req s k t Hk Hpc Hq); bal_open B x; apply (bal_router s k t); [exact Hk|];
+       unfold flying; rewrite Hpc; reflexivity|].
+    destruct (lookup (rid (r_iq t)) (table s)) as [c|] eqn:Hl.
     + apply lookup_In in Hl as Hin. destruct (T _ _ Hin) as (ch & E1 & _).
-      rewrite (router_step_start_hit s k t c ch Hk Hpc Hl E1). bal_open B x.
+      rewrite (router_step_start_hit s k t c ch Hk Hpc Hq Hl E1). bal_open B x.
       apply (bal_router s k t); [exact Hk|]. unfold flying. rewrite Hpc. destruct (c_done ch); reflexivity.
-    + rewrite (router_step_start_miss s k t Hk Hpc Hl). bal_open B x.
+    + rewrite (router_step_start_miss s k t Hk Hpc Hq Hl). bal_open B x.
       apply (bal_router s k t); [exact Hk|]. unfold flying. rewrite Hpc. reflexivity.
   - assert (Hh : held_by t = Some c) by (unfold held_by; rewrite Hpc; reflexivity).
     destruct (H _ _ _ Hk Hh) as (ch & E1 & Eo & Ec & Eb). rewrite Hpc in Eb. destruct Eb as [Eb Eg].
@@ -791,8 +825,9 @@ Qed.
 Lemma bal_step s a : inv s -> bal s -> bal (c_step s a).
 Proof.
   intros I B. destruct a as [i|c|r|k|c|c|c].
-  - intros x. unfold delivered, in_flight. cbn [c_step chans routers ordinary arrived].
-    rewrite flat_map_app. cbn [flat_map new_chan contents c_got c_buf app]. rewrite app_nil_r. apply B.
+  - intros x. unfold delivered, in_flight. cbn [c_step].
+    destruct (live s i); cbn [register refuse chans routers ordinary arrived];
+      rewrite flat_map_app; cbn [flat_map new_chan contents c_got c_buf app]; rewrite app_nil_r; apply B.
   - cbn [c_step]. destruct (nth_error (chans s) c); [|exact B]. apply (bal_ext s); auto.
   - intros x. unfold delivered, in_flight. cbn [c_step chans routers ordinary arrived].
     rewrite flat_map_app, !cnt_app. cbn [flat_map flying r_pc r_iq app]. rewrite (B x).
@@ -848,17 +883,22 @@ Inductive rstep (s : cst) (k : nat) : cst -> Prop :=
 | rs_idle :
     (nth_error (routers s) k = None \/ exists t, nth_error (routers s) k = Some t /\ r_pc t = RDone) ->
     rstep s k s
+| rs_req t :
+    nth_error (routers s) k = Some t -> r_pc t = RStart -> rreq (r_iq t) = true ->
+    rstep s k (set_pc s k ROrd)
 | rs_miss t :
-    nth_error (routers s) k = Some t -> r_pc t = RStart -> lookup (fst (r_iq t)) (table s) = None ->
+    nth_error (routers s) k = Some t -> r_pc t = RStart -> rreq (r_iq t) = false ->
+    lookup (rid (r_iq t)) (table s) = None ->
     rstep s k (set_pc s k ROrd)
 | rs_hit t c ch :
-    nth_error (routers s) k = Some t -> r_pc t = RStart -> lookup (fst (r_iq t)) (table s) = Some c ->
-    nth_error (chans s) c = Some ch -> c_owner ch = fst (r_iq t) -> fresh_ch ch ->
-    rstep s k (set_pc (set_table s (remove_id (fst (r_iq t)) (table s))) k
+    nth_error (routers s) k = Some t -> r_pc t = RStart -> rreq (r_iq t) = false ->
+    lookup (rid (r_iq t)) (table s) = Some c ->
+    nth_error (chans s) c = Some ch -> c_owner ch = rid (r_iq t) -> fresh_ch ch ->
+    rstep s k (set_pc (set_table s (remove_id (rid (r_iq t)) (table s))) k
                  (if c_done ch then RCloseOrd c else RSend c))
 | rs_send t c ch :
     nth_error (routers s) k = Some t -> r_pc t = RSend c -> nth_error (chans s) c = Some ch ->
-    c_owner ch = fst (r_iq t) -> fresh_ch ch ->
+    c_owner ch = rid (r_iq t) -> fresh_ch ch ->
     rstep s k (set_pc (set_chans s (upd (chans s) c (put_ch (r_iq t)))) k (RClose c))
 | rs_close t c ch :
     nth_error (routers s) k = Some t -> r_pc t = RClose c -> nth_error (chans s) c = Some ch ->
@@ -878,10 +918,12 @@ Proof.
     [|rewrite router_step_none by exact Hk; apply rs_idle; left; exact Hk].
   pose proof I as (P & T & N & U & O & H & C).
   destruct (r_pc t) as [|c|c|c| |] eqn:Hpc.
-  - destruct (lookup (fst (r_iq t)) (table s)) as [c|] eqn:Hl.
+  - destruct (rreq (r_iq t)) eqn:Hq;
+      [rewrite (router_step_start_req s k t Hk Hpc Hq); apply (rs_req s k t); assumption|].
+    destruct (lookup (rid (r_iq t)) (table s)) as [c|] eqn:Hl.
     + apply lookup_In in Hl as Hin. destruct (T _ _ Hin) as (ch & E1 & E2 & E3).
-      rewrite (router_step_start_hit s k t c ch Hk Hpc Hl E1). apply (rs_hit s k t c ch); assumption.
-    + rewrite (router_step_start_miss s k t Hk Hpc Hl). apply (rs_miss s k t); assumption.
+      rewrite (router_step_start_hit s k t c ch Hk Hpc Hq Hl E1). apply (rs_hit s k t c ch); assumption.
+    + rewrite (router_step_start_miss s k t Hk Hpc Hq Hl). apply (rs_miss s k t); assumption.
   - assert (Hh : held_by t = Some c) by (unfold held_by; rewrite Hpc; reflexivity).
     destruct (H _ _ _ Hk Hh) as (ch & E1 & Eo & Ec & Eb). rewrite Hpc in Eb. destruct Eb as [Eb Eg].
     rewrite (router_step_send s k t c ch Hk Hpc E1 Ec Eb). apply (rs_send s k t c ch); try assumption.
@@ -909,31 +951,31 @@ Proof. reflexivity. Qed.
 Lemma early_response s i v c ch :
   inv s -> lookup i (table s) = Some c -> nth_error (chans s) c = Some ch -> c_done ch = false ->
   let k := length (routers s) in
-  let s' := c_run s [AArrive (i, v); ARouter k; ARouter k; ARouter k] in
-  nth_error (chans s') c = Some (close_ch (put_ch (i, v) ch)) /\
+  let s' := c_run s [AArrive (result i v); ARouter k; ARouter k; ARouter k] in
+  nth_error (chans s') c = Some (close_ch (put_ch (result i v) ch)) /\
   (forall d, d <> c -> nth_error (chans s') d = nth_error (chans s) d) /\
   table s' = remove_id i (table s) /\ ordinary s' = ordinary s /\
-  nth_error (routers s') k = Some {| r_iq := (i, v); r_pc := RDone |}.
+  nth_error (routers s') k = Some {| r_iq := (result i v); r_pc := RDone |}.
 Proof.
   intros I Hl Hc Hd k s'. subst s'. rewrite !c_run_cons, c_run_nil, !step_router_eq.
   pose proof I as (P & T & N & U & O & H & C).
   destruct (T _ _ (lookup_In _ _ _ Hl)) as (ch0 & E0 & Eo & Ecl & Eb & Eg).
   assert (ch0 = ch) by congruence. subst ch0.
-  set (s1 := c_step s (AArrive (i, v))).
-  set (t1 := {| r_iq := (i, v); r_pc := RStart |}).
+  set (s1 := c_step s (AArrive (result i v))).
+  set (t1 := {| r_iq := (result i v); r_pc := RStart |}).
   assert (K1 : nth_error (routers s1) k = Some t1) by apply nth_error_snoc_new.
   assert (S2 : router_step s1 k = set_pc (set_table s1 (remove_id i (table s))) k (RSend c)).
-  { rewrite (router_step_start_hit s1 k t1 c ch K1 eq_refl Hl Hc). rewrite Hd. reflexivity. }
+  { rewrite (router_step_start_hit s1 k t1 c ch K1 eq_refl eq_refl Hl Hc). rewrite Hd. reflexivity. }
   rewrite S2. set (s2 := set_pc _ k (RSend c)).
   assert (K2 : nth_error (routers s2) k = Some (with_pc (RSend c) t1)).
   { unfold s2. rewrite set_pc_routers. apply nth_error_upd_same. exact K1. }
-  assert (S3 : router_step s2 k = set_pc (set_chans s2 (upd (chans s) c (put_ch (i, v)))) k (RClose c)).
+  assert (S3 : router_step s2 k = set_pc (set_chans s2 (upd (chans s) c (put_ch (result i v)))) k (RClose c)).
   { exact (router_step_send s2 k _ c ch K2 eq_refl Hc Ecl Eb). }
   rewrite S3. set (s3 := set_pc _ k (RClose c)).
   assert (K3 : nth_error (routers s3) k = Some (with_pc (RClose c) (with_pc (RSend c) t1))).
   { unfold s3. rewrite set_pc_routers. apply nth_error_upd_same. exact K2. }
-  assert (C3 : chans s3 = upd (chans s) c (put_ch (i, v))) by reflexivity.
-  assert (C3' : nth_error (chans s3) c = Some (put_ch (i, v) ch)).
+  assert (C3 : chans s3 = upd (chans s) c (put_ch (result i v))) by reflexivity.
+  assert (C3' : nth_error (chans s3) c = Some (put_ch (result i v) ch)).
   { rewrite C3. apply nth_error_upd_same. exact Hc. }
   assert (S4 : router_step s3 k = set_pc (set_chans s3 (upd (chans s3) c close_ch)) k RDone).
   { exact (router_step_close s3 k _ c _ K3 eq_refl C3' eq_refl). }
@@ -951,21 +993,21 @@ Qed.
 Lemma cancelled_response s i v c ch :
   inv s -> lookup i (table s) = Some c -> nth_error (chans s) c = Some ch -> c_done ch = true ->
   let k := length (routers s) in
-  let s' := c_run s [AArrive (i, v); ARouter k; ARouter k; ARouter k] in
+  let s' := c_run s [AArrive (result i v); ARouter k; ARouter k; ARouter k] in
   nth_error (chans s') c = Some (close_ch ch) /\
   (forall d, d <> c -> nth_error (chans s') d = nth_error (chans s) d) /\
-  table s' = remove_id i (table s) /\ ordinary s' = ordinary s ++ [(i, v)] /\
-  nth_error (routers s') k = Some {| r_iq := (i, v); r_pc := RDone |}.
+  table s' = remove_id i (table s) /\ ordinary s' = ordinary s ++ [(result i v)] /\
+  nth_error (routers s') k = Some {| r_iq := (result i v); r_pc := RDone |}.
 Proof.
   intros I Hl Hc Hd k s'. subst s'. rewrite !c_run_cons, c_run_nil, !step_router_eq.
   pose proof I as (P & T & N & U & O & H & C).
   destruct (T _ _ (lookup_In _ _ _ Hl)) as (ch0 & E0 & Eo & Ecl & Eb & Eg).
   assert (ch0 = ch) by congruence. subst ch0.
-  set (s1 := c_step s (AArrive (i, v))).
-  set (t1 := {| r_iq := (i, v); r_pc := RStart |}).
+  set (s1 := c_step s (AArrive (result i v))).
+  set (t1 := {| r_iq := (result i v); r_pc := RStart |}).
   assert (K1 : nth_error (routers s1) k = Some t1) by apply nth_error_snoc_new.
   assert (S2 : router_step s1 k = set_pc (set_table s1 (remove_id i (table s))) k (RCloseOrd c)).
-  { rewrite (router_step_start_hit s1 k t1 c ch K1 eq_refl Hl Hc). rewrite Hd. reflexivity. }
+  { rewrite (router_step_start_hit s1 k t1 c ch K1 eq_refl eq_refl Hl Hc). rewrite Hd. reflexivity. }
   rewrite S2. set (s2 := set_pc _ k (RCloseOrd c)).
   assert (K2 : nth_error (routers s2) k = Some (with_pc (RCloseOrd c) t1)).
   { unfold s2. rewrite set_pc_routers. apply nth_error_upd_same. exact K1. }
@@ -989,15 +1031,15 @@ Qed.
 Lemma unmatched_response s i v :
   lookup i (table s) = None ->
   let k := length (routers s) in
-  let s' := c_run s [AArrive (i, v); ARouter k; ARouter k] in
-  chans s' = chans s /\ table s' = table s /\ ordinary s' = ordinary s ++ [(i, v)] /\
-  nth_error (routers s') k = Some {| r_iq := (i, v); r_pc := RDone |}.
+  let s' := c_run s [AArrive (result i v); ARouter k; ARouter k] in
+  chans s' = chans s /\ table s' = table s /\ ordinary s' = ordinary s ++ [(result i v)] /\
+  nth_error (routers s') k = Some {| r_iq := (result i v); r_pc := RDone |}.
 Proof.
   intros Hl k s'. subst s'. rewrite !c_run_cons, c_run_nil, !step_router_eq.
-  set (s1 := c_step s (AArrive (i, v))).
-  set (t1 := {| r_iq := (i, v); r_pc := RStart |}).
+  set (s1 := c_step s (AArrive (result i v))).
+  set (t1 := {| r_iq := (result i v); r_pc := RStart |}).
   assert (K1 : nth_error (routers s1) k = Some t1) by apply nth_error_snoc_new.
-  rewrite (router_step_start_miss s1 k t1 K1 eq_refl Hl). set (s2 := set_pc s1 k ROrd).
+  rewrite (router_step_start_miss s1 k t1 K1 eq_refl eq_refl Hl). set (s2 := set_pc s1 k ROrd).
   assert (K2 : nth_error (routers s2) k = Some (with_pc ROrd t1)).
   { unfold s2. rewrite set_pc_routers. apply nth_error_upd_same. exact K1. }
   rewrite (router_step_ord s2 k _ K2 eq_refl).
@@ -1015,11 +1057,11 @@ Definition pending (s : cst) (i : iqid) (c : nat) : Prop :=
 (* the actions that can end the pending state of request (i, c) *)
 Definition touches (s : cst) (i : iqid) (c : nat) (a : act) : bool :=
   match a with
-  | ARegister j => N.eqb j i                                 (* a clashing id replaces the entry *)
+  | ARegister _ => false                 (* a clashing registration is refused: it changes nothing *)
   | AUnregister d | ACancelDelete d | ACancel d => Nat.eqb d c
-  | ARouter k =>                                             (* another response with this id is taken *)
+  | ARouter k =>                     (* another RESPONSE with this id is taken; a request with this id is not *)
       match nth_error (routers s) k with
-      | Some t => match r_pc t with RStart => N.eqb (fst (r_iq t)) i | _ => false end
+      | Some t => match r_pc t with RStart => negb (rreq (r_iq t)) && N.eqb (rid (r_iq t)) i | _ => false end
       | None => false
       end
   | AArrive _ | ARecv _ => false
@@ -1048,18 +1090,24 @@ Lemma pending_step s i c a :
 Proof.
   intros I (Hl & ch & Hc & Hd) Ht. unfold pending.
   destruct a as [j|d|r|k|d|d|d]; cbn [touches] in Ht.
-  - cbn [c_step table chans]. split.
-    + cbn [lookup]. rewrite N.eqb_sym, Ht. apply N.eqb_neq in Ht.
-      rewrite lookup_remove_id_other by congruence. exact Hl.
-    + exists ch. split; [apply nth_error_snoc_old; exact Hc|exact Hd].
+  - cbn [c_step]. destruct (live s j) eqn:Lv.
+    + cbn [refuse table chans]. split; [exact Hl|].
+      exists ch. split; [apply nth_error_snoc_old; exact Hc|exact Hd].
+    + assert (Nj : i <> j).
+      { intros <-. unfold live in Lv. rewrite Hl, Hc, Hd in Lv. discriminate Lv. }
+      cbn [register table chans]. split.
+      * cbn [lookup]. apply N.eqb_neq in Nj as Nb. rewrite Nb.
+        rewrite lookup_remove_id_other by exact Nj. exact Hl.
+      * exists ch. split; [apply nth_error_snoc_old; exact Hc|exact Hd].
   - apply Nat.eqb_neq in Ht. cbn [c_step]. destruct (nth_error (chans s) d).
     + cbn [set_table table chans]. split; [apply lookup_remove_chan_other; assumption|]. exists ch. auto.
     + split; [exact Hl|]. exists ch. auto.
   - cbn [c_step table chans]. split; [exact Hl|]. exists ch. auto.
-  - rewrite step_router_eq. destruct (router_step_spec s k I) as [Hi|t Hk Hpc Hm|t e ch0 Hk Hpc Hh E1 Eo Ef|t e ch0 Hk Hpc E1 Eo Ef|t e ch0 Hk Hpc E1 Ec|t e ch0 Hk Hpc E1 Ec|t Hk Hpc].
+  - rewrite step_router_eq. destruct (router_step_spec s k I) as [Hi|t Hk Hpc Hq|t Hk Hpc Hq Hm|t e ch0 Hk Hpc Hq Hh E1 Eo Ef|t e ch0 Hk Hpc E1 Eo Ef|t e ch0 Hk Hpc E1 Ec|t e ch0 Hk Hpc E1 Ec|t Hk Hpc].
     + split; [exact Hl|]. exists ch. auto.
     + split; [exact Hl|]. exists ch. auto.
-    + rewrite Hk, Hpc in Ht. apply N.eqb_neq in Ht. cbn [set_pc set_routers set_table table chans]. split.
+    + split; [exact Hl|]. exists ch. auto.
+    + rewrite Hk, Hpc, Hq in Ht. cbn [negb andb] in Ht. apply N.eqb_neq in Ht. cbn [set_pc set_routers set_table table chans]. split.
       * rewrite lookup_remove_id_other by congruence. exact Hl.
       * exists ch. auto.
     + cbn [set_pc set_routers set_chans table chans]. split; [exact Hl|].
@@ -1092,9 +1140,9 @@ Proof.
   rewrite c_run_cons. apply IH; [apply inv_step; exact I|apply pending_step; assumption|exact Hu].
 Qed.
 
-Lemma register_pending s i : pending (c_step s (ARegister i)) i (length (chans s)).
+Lemma register_pending s i : live s i = false -> pending (c_step s (ARegister i)) i (length (chans s)).
 Proof.
-  unfold pending. cbn [c_step table chans lookup]. rewrite N.eqb_refl. split; [reflexivity|].
+  intros Lv. unfold pending. cbn [c_step]. rewrite Lv. cbn [register table chans lookup]. rewrite N.eqb_refl. split; [reflexivity|].
   exists (new_chan i). split; [apply nth_error_snoc_new|reflexivity].
 Qed.
 
@@ -1102,25 +1150,25 @@ Qed.
    cancellation / unregistration / a clashing registration / another answer being taken,
    a response arriving at any later point is delivered on that channel, which is then closed *)
 Lemma early_response_any_time s0 i l v :
-  inv s0 ->
+  inv s0 -> live s0 i = false ->
   let c := length (chans s0) in
   let s1 := c_step s0 (ARegister i) in
   untouched s1 i c l = true ->
   let s := c_run s1 l in
   let k := length (routers s) in
-  let s' := c_run s [AArrive (i, v); ARouter k; ARouter k; ARouter k] in
+  let s' := c_run s [AArrive (result i v); ARouter k; ARouter k; ARouter k] in
   exists ch', nth_error (chans s') c = Some ch' /\ c_owner ch' = i /\ c_closed ch' = true /\
-              c_buf ch' = Some (i, v) /\ c_got ch' = [] /\
+              c_buf ch' = Some (result i v) /\ c_got ch' = [] /\
               lookup i (table s') = None /\ ordinary s' = ordinary s.
 Proof.
-  intros I0 c s1 Hu s k s'.
-  destruct (pending_run i c l s1 (inv_step _ _ I0) (register_pending s0 i) Hu) as (I & Hl & ch & Hc & Hd).
+  intros I0 Lv c s1 Hu s k s'.
+  destruct (pending_run i c l s1 (inv_step _ _ I0) (register_pending s0 i Lv) Hu) as (I & Hl & ch & Hc & Hd).
   fold s in I, Hl, Hc.
   destruct (early_response s i v c ch I Hl Hc Hd) as (G1 & _ & G3 & G4 & _).
   fold k in G1, G3, G4. fold s' in G1, G3, G4.
   destruct I as (_ & T & _). destruct (T _ _ (lookup_In _ _ _ Hl)) as (ch0 & E0 & Eo & _ & _ & Eg).
   assert (ch0 = ch) by congruence. subst ch0.
-  exists (close_ch (put_ch (i, v) ch)). split; [exact G1|]. cbn [close_ch put_ch c_owner c_closed c_buf c_got].
+  exists (close_ch (put_ch (result i v) ch)). split; [exact G1|]. cbn [close_ch put_ch c_owner c_closed c_buf c_got].
   split; [exact Eo|]. split; [reflexivity|]. split; [reflexivity|]. split; [exact Eg|].
   split; [rewrite G3; apply lookup_remove_id_same|exact G4].
 Qed.
@@ -1146,11 +1194,12 @@ Proof.
     - exists (f ch). split; [apply nth_error_upd_same; exact Hc|]. apply Hf. reflexivity.
     - exists ch. split; [rewrite nth_error_upd_other by congruence; exact Hc|auto]. }
   destruct a as [j|d|r|k|d|d|d].
-  - cbn [c_step chans]. exists ch. split; [apply nth_error_snoc_old; exact Hc|auto].
+  - cbn [c_step]. destruct (live s j); cbn [register refuse chans];
+      (exists ch; split; [apply nth_error_snoc_old; exact Hc|auto]).
   - apply Same. cbn [c_step]. destruct (nth_error (chans s) d); reflexivity.
   - apply Same. reflexivity.
   - revert Same Upd. rewrite step_router_eq. intros Same Upd.
-    destruct (router_step_spec s k I) as [Hi|t Hk Hpc Hm|t e ch0 Hk Hpc Hh E1 Eo Ef|t e ch0 Hk Hpc E1 Eo Ef|t e ch0 Hk Hpc E1 Ec|t e ch0 Hk Hpc E1 Ec|t Hk Hpc];
+    destruct (router_step_spec s k I) as [Hi|t Hk Hpc Hq|t Hk Hpc Hq Hm|t e ch0 Hk Hpc Hq Hh E1 Eo Ef|t e ch0 Hk Hpc E1 Eo Ef|t e ch0 Hk Hpc E1 Ec|t e ch0 Hk Hpc E1 Ec|t Hk Hpc];
       try (apply Same; reflexivity).
     + apply (Upd e (put_ch (r_iq t))); [reflexivity|]. intros ->. destruct Ef as (Ef & _). congruence.
     + apply (Upd e close_ch); [reflexivity|]. intros ->. congruence.
@@ -1194,7 +1243,7 @@ Proof. cbn zeta. apply closed_stable. apply inv_reachable. Qed.
 Lemma reach_right_owner l :
   let s := c_run c_init l in
   forall c ch v, nth_error (chans s) c = Some ch ->
-    (c_buf ch = Some v \/ In v (c_got ch)) -> fst v = c_owner ch.
+    (c_buf ch = Some v \/ In v (c_got ch)) -> rid v = c_owner ch.
 Proof. cbn zeta. apply inv_right_owner. apply inv_reachable. Qed.
 
 Lemma reach_never_blocks l k : blocked (c_run c_init l) k = false.
@@ -1212,19 +1261,19 @@ Lemma reach_early_response l i v c :
   lookup i (table s) = Some c ->
   (forall ch, nth_error (chans s) c = Some ch -> c_done ch = false) ->
   let k := length (routers s) in
-  let s' := c_run s [AArrive (i, v); ARouter k; ARouter k; ARouter k] in
+  let s' := c_run s [AArrive (result i v); ARouter k; ARouter k; ARouter k] in
   (exists ch', nth_error (chans s') c = Some ch' /\ c_owner ch' = i /\ c_closed ch' = true /\
-               c_buf ch' = Some (i, v) /\ c_got ch' = []) /\
+               c_buf ch' = Some (result i v) /\ c_got ch' = []) /\
   (forall d, d <> c -> nth_error (chans s') d = nth_error (chans s) d) /\
   lookup i (table s') = None /\ ordinary s' = ordinary s /\
-  nth_error (routers s') k = Some {| r_iq := (i, v); r_pc := RDone |}.
+  nth_error (routers s') k = Some {| r_iq := (result i v); r_pc := RDone |}.
 Proof.
   intros s Hl Hd k s'. pose proof (inv_reachable l) as I. fold s in I.
   pose proof I as (_ & T & _). destruct (T _ _ (lookup_In _ _ _ Hl)) as (ch & E0 & Eo & _ & _ & Eg).
   destruct (early_response s i v c ch I Hl E0 (Hd _ E0)) as (G1 & G2 & G3 & G4 & G5).
   fold k in G1, G2, G3, G4, G5. fold s' in G1, G2, G3, G4, G5.
   split; [|split; [exact G2|split; [rewrite G3; apply lookup_remove_id_same|split; assumption]]].
-  exists (close_ch (put_ch (i, v) ch)). split; [exact G1|]. cbn [close_ch put_ch c_owner c_closed c_buf c_got]. auto.
+  exists (close_ch (put_ch (result i v) ch)). split; [exact G1|]. cbn [close_ch put_ch c_owner c_closed c_buf c_got]. auto.
 Qed.
 
 Lemma reach_early_response_any_time l0 i l v :
@@ -1234,9 +1283,9 @@ Lemma reach_early_response_any_time l0 i l v :
   untouched s1 i c l = true ->
   let s := c_run s1 l in
   let k := length (routers s) in
-  let s' := c_run s [AArrive (i, v); ARouter k; ARouter k; ARouter k] in
+  let s' := c_run s [AArrive (result i v); ARouter k; ARouter k; ARouter k] in
   exists ch', nth_error (chans s') c = Some ch' /\ c_owner ch' = i /\ c_closed ch' = true /\
-              c_buf ch' = Some (i, v) /\ c_got ch' = [] /\
+              c_buf ch' = Some (result i v) /\ c_got ch' = [] /\
               lookup i (table s') = None /\ ordinary s' = ordinary s.
 Proof. cbn zeta. apply early_response_any_time. apply inv_reachable. Qed.
 
@@ -1245,12 +1294,12 @@ Lemma reach_cancelled_response l i v c :
   lookup i (table s) = Some c ->
   (forall ch, nth_error (chans s) c = Some ch -> c_done ch = true) ->
   let k := length (routers s) in
-  let s' := c_run s [AArrive (i, v); ARouter k; ARouter k; ARouter k] in
+  let s' := c_run s [AArrive (result i v); ARouter k; ARouter k; ARouter k] in
   (exists ch', nth_error (chans s') c = Some ch' /\ c_closed ch' = true /\
                c_buf ch' = None /\ c_got ch' = []) /\
   (forall d, d <> c -> nth_error (chans s') d = nth_error (chans s) d) /\
-  lookup i (table s') = None /\ ordinary s' = ordinary s ++ [(i, v)] /\
-  nth_error (routers s') k = Some {| r_iq := (i, v); r_pc := RDone |}.
+  lookup i (table s') = None /\ ordinary s' = ordinary s ++ [(result i v)] /\
+  nth_error (routers s') k = Some {| r_iq := (result i v); r_pc := RDone |}.
 Proof.
   intros s Hl Hd k s'. pose proof (inv_reachable l) as I. fold s in I.
   pose proof I as (_ & T & _). destruct (T _ _ (lookup_In _ _ _ Hl)) as (ch & E0 & Eo & _ & Eb & Eg).
